@@ -3,6 +3,7 @@ package vh
 // Result-stream drivers (C07, C08, C09, C13): spec/stream/StreamsTrace.tla decides.
 
 import (
+	"bufio"
 	"bytes"
 	"crypto/sha256"
 	"encoding/base64"
@@ -499,6 +500,33 @@ func TestDrv_C07(t *testing.T) {
 			samples = append(samples, render(&rs[0]))
 		}
 	}
+	// JSON lines whose length sits on and around the multiples of 64 KiB (a reader that gathers a long line piecewise)
+	{
+		var rs []vegeta.Result
+		for i, n := range []int{65535, 65536, 65537, 65538, 100, 131072, 131073, 4097, 4096, 200} {
+			rs = append(rs, resultWithJSONLine(r, i, n))
+		}
+		c := codecByName("json")
+		tr.Emit("Reset", KV{"kind": "c07", "codec": "json", "lines": "on and around multiples of 64 KiB"})
+		for i := range rs {
+			tr.Emit("Encode", KV{"id": i + 1, "r": render(&rs[i])})
+		}
+		data, _ := encodeAll(c, rs)
+		dec := c.dec(bytes.NewReader(data))
+		for k := 0; k <= len(rs); k++ {
+			var got vegeta.Result
+			err := dec.Decode(&got)
+			switch {
+			case err == io.EOF:
+				tr.Emit("Decode", KV{"res": "eof"})
+			case err != nil:
+				tr.Emit("Decode", KV{"res": "err", "err": err.Error()})
+			default:
+				tr.Emit("Decode", KV{"res": "rec", "r": render(&got)})
+			}
+		}
+		records += len(rs)
+	}
 	// independent encoders working at the same time (one per goroutine, each with its own writer and results) share
 	// nothing: every stream decodes to its own records
 	{
@@ -647,6 +675,17 @@ func TestDrv_C09(t *testing.T) {
 					tr.Emit("Cut", KV{"cut": cut, "reader": reader, "out": ids, "tail": tail})
 					cuts++
 				}
+				// the same prefix through auto-detection, from a reader that hands over its last bytes together with the end of
+				// the stream (a decompressor, an HTTP body): once the first record is whole, every whole record is there
+				if cut >= frames[0]["end"].(int) && (cut%5 == 0 || total <= 8192) {
+					if dec := vegeta.DecoderFor(iotest.DataErrReader(bytes.NewReader(data[:cut]))); dec == nil {
+						tr.Emit("Cut", KV{"cut": cut, "reader": "auto, data with EOF: no decoder", "out": []int{}, "tail": "eof"})
+					} else {
+						ids, tail := decodeIDs(dec, rs, n+3)
+						tr.Emit("Cut", KV{"cut": cut, "reader": "auto, data with EOF", "out": ids, "tail": tail})
+					}
+					cuts++
+				}
 			}
 			if len(samples) < 2 {
 				samples = append(samples, KV{"codec": c.name, "frames": frames, "total_bytes": total, "cut_points": len(points)})
@@ -738,6 +777,36 @@ func TestDrv_C08(t *testing.T) {
 		}
 		if len(samples) < 2 {
 			samples = append(samples, KV{"records": n, "first_body_bytes": len(rs[0].Body)})
+		}
+	}
+	// a first record from before 1970 (its CSV line starts with a minus sign), from readers that can peek and un-read a byte
+	{
+		rs := []vegeta.Result{genResult(r, 0, 100), genResult(r, 1, 100), genResult(r, 2, 100)}
+		rs[0].Timestamp = time.Unix(-86400*365*3-12345, 678).UTC()
+		for _, c := range codecs {
+			data, _ := encodeAll(c, rs)
+			for _, kind := range []string{"bytes.Reader", "bytes.Buffer", "strings.Reader", "bufio.Reader"} {
+				cases++
+				tr.Emit("Reset", KV{"kind": "c08", "codec": c.name, "n": len(rs), "chunk": 0, "bytes": len(data), "reader": kind + ", first record of 1966"})
+				var rd io.Reader
+				switch kind {
+				case "bytes.Reader":
+					rd = bytes.NewReader(data)
+				case "bytes.Buffer":
+					rd = bytes.NewBuffer(append([]byte{}, data...))
+				case "strings.Reader":
+					rd = strings.NewReader(string(data))
+				default:
+					rd = bufio.NewReader(bytes.NewReader(data))
+				}
+				dec := vegeta.DecoderFor(rd)
+				if dec == nil {
+					tr.Emit("Auto", KV{"detected": false, "out": []int{}, "tail": "none"})
+					continue
+				}
+				ids, tail := decodeIDs(dec, rs, len(rs)+3)
+				tr.Emit("Auto", KV{"detected": true, "out": ids, "tail": tail})
+			}
 		}
 	}
 	// a first record far larger than any buffer (a 20 MiB response body captured with -max-body=-1), then small ones
@@ -935,6 +1004,9 @@ func TestDrv_C13(t *testing.T) {
 		for f := 0; f < k; f++ {
 			lens[f] = []int{1, 1, 2, 3, 5, 9, 17}[r.Intn(7)] // a length of one is "empty after the first (sniffed) record"
 			encs[f] = codecs[r.Intn(3)].name
+			if s%4 == 3 && f%2 == 0 {
+				encs[f] = "json" // (the seam of the line reader concerns JSON files)
+			}
 			for i := 0; i < lens[f]; i++ {
 				res := genResult(r, id, 200)
 				res.Attack = fmt.Sprintf("f%d", f) // (attack, seq) identifies the record
@@ -950,6 +1022,9 @@ func TestDrv_C13(t *testing.T) {
 				res.Error = []string{"", "", "e1", "connection refused", "500 Internal Server Error"}[r.Intn(5)]
 				if r.Intn(3) == 0 { // zero-valued and empty fields right after set ones
 					res.Error, res.Body, res.Headers, res.BytesIn, res.Code = "", nil, nil, 0, 0
+				}
+				if s%4 == 3 && i == lens[f]/2 && i > 0 { // a JSON line of exactly 64 KiB + 1 (or a multiple): the line reader's seam
+					padToJSONLine(r, &res, []int{65537, 131073, 65536}[s%3])
 				}
 				if s%4 == 1 && i == lens[f]/2 && i > 0 { // a record whose encoded line exceeds the decoders' buffers, not first in its file
 					res.Body = make([]byte, 70000)
@@ -1260,4 +1335,30 @@ func cutNextToSparse(tr *Tracer, r *rand.Rand, n int) (cases int) {
 		tr.Emit("Multi", KV{"out": out, "tail": tail})
 	}
 	return cases
+}
+
+// resultWithJSONLine builds a result whose JSON line (newline included) is exactly n bytes long.
+func resultWithJSONLine(r *rand.Rand, id int, n int) vegeta.Result {
+	res := genResult(r, id, 10)
+	padToJSONLine(r, &res, n)
+	return res
+}
+
+// padToJSONLine gives res the body and error text that make its JSON line (newline included) exactly n bytes long.
+func padToJSONLine(r *rand.Rand, res *vegeta.Result, n int) {
+	res.Headers, res.Error, res.Body = nil, "", nil
+	lineLen := func() int {
+		var buf bytes.Buffer
+		must(vegeta.NewJSONEncoder(&buf).Encode(res))
+		return buf.Len()
+	}
+	base := lineLen()
+	if n <= base+8 {
+		return
+	}
+	res.Body = make([]byte, (n-base-8)/4*3) // base64: four characters for three bytes
+	r.Read(res.Body)
+	for l := lineLen(); l < n; l = lineLen() { // the rest, a character at a time, in the error text
+		res.Error += strings.Repeat("e", n-l)
+	}
 }
